@@ -52,6 +52,8 @@ pub enum Expr {
     Bad,
     /// verbatim expression text with the integer value the reference expects (e.g. `_event.data.p`)
     Raw(String, i64),
+    /// text that cannot be parsed (fails at evaluation time like `Bad`)
+    BadSyntax(u8),
 }
 
 #[derive(Clone, Debug, PartialEq)]
@@ -88,6 +90,10 @@ pub enum Stmt {
     SendBad(BadSend),
     /// assignment to an undeclared location
     AssignUndeclared,
+    /// assignment whose location expression cannot be parsed
+    AssignBadLocation,
+    /// `<send event targetexpr="'#_scxml_' + _sessionid"/>` – own external queue, addressed by session id
+    SendSelfById(String),
     /// `gate(n)` probe
     Gate(i64),
     /// `mark('in', 's1', In('s1'), …)` – In() probe over the listed states (no reference line)
@@ -263,6 +269,9 @@ pub fn render_expr(e: &Expr) -> String {
         Expr::Add(v, k) => format!("{} + {}", v, k),
         Expr::Bad => "undeclared_expr_var + 1".to_string(),
         Expr::Raw(t, _) => t.clone(),
+        // malformed in both expression languages (probed: `(v0 + 1` is accepted by rfsm-expression and
+        // `v0=v0 +` by the ECMAScript engine, so those are not used)
+        Expr::BadSyntax(k) => ["1 + * 2", ")", "v0 v0", "* 3", "[1, 2"][*k as usize % 5].to_string(),
     }
 }
 
@@ -290,6 +299,8 @@ fn render_block(b: &Block, dm: Dm, out: &mut String, ind: usize) {
             Stmt::AssignUndeclared => {
                 out.push_str(&format!("{}<assign location=\"undeclared_location\" expr=\"1\"/>\n", pad))
             }
+            Stmt::AssignBadLocation => out.push_str(&format!("{}<assign location=\"v0[\" expr=\"1\"/>\n", pad)),
+            Stmt::SendSelfById(e) => out.push_str(&format!("{}<send event=\"{}\" targetexpr=\"'#_scxml_' + _sessionid\"/>\n", pad, e)),
             Stmt::If(branches, els) => {
                 for (i, (c, blk)) in branches.iter().enumerate() {
                     if i == 0 {
@@ -939,7 +950,14 @@ fn gen_stmt(g: &mut Gen, in_names: &[String], depth: usize) -> Option<Stmt> {
             gen_block_tail(&mut body, g, in_names, depth - 1);
             Stmt::Foreach { array, item, index, body }
         }
-        7 if o.w_self_send > 0 => Stmt::SendSelf(format!("x{}.u{}", 1 + g.rng.below(2), m)),
+        7 if o.w_self_send > 0 => {
+            let name = format!("x{}.u{}", 1 + g.rng.below(2), m);
+            if g.rng.chance(1, 3) {
+                Stmt::SendSelfById(name)
+            } else {
+                Stmt::SendSelf(name)
+            }
+        }
         8 if o.w_raise > 0 => Stmt::SendInternal(format!("r{}.u{}", 1 + g.rng.below(3), m)),
         9 => match g.rng.below(4) {
             // structured and string values are legal results of <log> / <script> as well
@@ -948,10 +966,13 @@ fn gen_stmt(g: &mut Gen, in_names: &[String], depth: usize) -> Option<Stmt> {
             _ => Stmt::Log(Expr::Add(format!("v{}", g.rng.below(3)), 1)),
         },
         10 | 11 if o.w_errors > 0 && g.rng.chance(o.w_errors, 8) => match g.rng.below(8) {
-            0 => Stmt::AssignUndeclared,
-            1 => Stmt::Assign("v0".to_string(), Expr::Bad),
-            2 => Stmt::Log(Expr::Bad),
-            3 => Stmt::Script(Expr::Bad),
+            0 => match g.rng.below(3) {
+                0 => Stmt::AssignBadLocation,
+                _ => Stmt::AssignUndeclared,
+            },
+            1 => Stmt::Assign("v0".to_string(), if g.rng.chance(1, 2) { Expr::Bad } else { Expr::BadSyntax(g.rng.below(5) as u8) }),
+            2 => Stmt::Log(if g.rng.chance(1, 2) { Expr::Bad } else { Expr::BadSyntax(g.rng.below(5) as u8) }),
+            3 => Stmt::Script(if g.rng.chance(1, 2) { Expr::Bad } else { Expr::BadSyntax(g.rng.below(5) as u8) }),
             4 => Stmt::SendBad(BadSend::EventExpr),
             5 => Stmt::SendBad(BadSend::TargetExpr),
             6 => Stmt::SendBad(BadSend::Namelist),
@@ -969,7 +990,7 @@ fn gen_block_tail(b: &mut Block, g: &mut Gen, in_names: &[String], depth: usize)
             // announce queue operations so that exactly-once / FIFO can be checked without a model
             match &s {
                 Stmt::Raise(e) | Stmt::SendInternal(e) => b.push(Stmt::Mark(format!("q:{}", e), vec![])),
-                Stmt::SendSelf(e) => b.push(Stmt::Mark(format!("xq:{}", e), vec![])),
+                Stmt::SendSelf(e) | Stmt::SendSelfById(e) => b.push(Stmt::Mark(format!("xq:{}", e), vec![])),
                 _ => {}
             }
             b.push(s);
